@@ -4,6 +4,6 @@ cd "$(dirname "$0")/.."
 run() { f=$1; p=$2; r=$(./tools/try_patch.py $f $p 2>/dev/null | tail -1); if echo "$r" | grep -q "fired: \['"; then echo "1 $p $f"; elif echo "$r" | grep -q "analysis-errors: \['"; then echo "2 $p $f"; else echo "0 $p $f"; fi; }
 export -f run
 ( for d in seeded/C*; do p=$(basename $d | cut -c1-3); echo "$d/patch.diff $p"; done ) | xargs -P 12 -L 1 bash -c 'run $0 $1' > /tmp/eval_seeds.txt
-( for f in /tmp/seed/out3/C*/refactor_R*.diff; do p=$(echo $f | sed 's#.*/out3/\(C..\)/.*#\1#'); echo "$f $p"; done ) | xargs -P 12 -L 1 bash -c 'run $0 $1' > /tmp/eval_refac.txt
+( for d in refactored/C*-R*; do p=$(basename $d | cut -c1-3); echo "$d/patch.diff $p"; done ) | xargs -P 12 -L 1 bash -c 'run $0 $1' > /tmp/eval_refac.txt
 echo "seeds   (want 1): $(cut -c1 /tmp/eval_seeds.txt | sort | uniq -c | tr '\n' ' ')"
 echo "refactor(want 0): $(cut -c1 /tmp/eval_refac.txt | sort | uniq -c | tr '\n' ' ')"
